@@ -246,10 +246,10 @@ def gelu (form : String) (sw : List Nat) (consts : List Float) (rank1 : Int) : S
 
 /-! ## BiasGelu (`bias_gelu.py`) -/
 
-/-- `BiasGeluFusion.check` on (`input`, `bias`).  `fixed = false`: the rule as first found (rank of the bias
-only, finding C19-F1); `fixed = true`: the repaired rule, which also requires the input's shape to be known with
-rank ≥ 1 and the bias length to be an `int` equal to the input's last dimension.  Which of the two /repo
-currently implements is probed by the harness on every run. -/
+/-- `BiasGeluFusion.check` on (`input`, `bias`).  `fixed = true` is the rule of /repo (commit 0030071): bias of
+rank 1, input shape known with rank ≥ 1, bias length an `int` equal to the input's last dimension.
+`fixed = false` is the rule before that commit (rank of the bias only, finding C19-F1); it is kept only for the
+`…_prefix_refuted` theorems. -/
 def biasOk (fixed : Bool) (input bias : Option Shape) : Bool :=
   hasRank bias 1 &&
     (!fixed ||
@@ -260,11 +260,14 @@ def biasOk (fixed : Bool) (input bias : Option Shape) : Bool :=
        | _, _ => false))
 
 /-- `[rule, rule.commuted]` for the chosen Gelu flavour: `Add(input, bias)` then `Add(bias, input)`. -/
-def biasGelu (fixed : Bool) (approxTanh : Bool) (a b : Option Shape) : String :=
+def biasGeluV (fixed : Bool) (approxTanh : Bool) (a b : Option Shape) : String :=
   if approxTanh then "count=0"
   else if biasOk fixed a b then "count=1 BiasGelu@com.microsoft{}(a,b)->1"
   else if biasOk fixed b a then "count=1 BiasGelu@com.microsoft{}(b,a)->1"
   else "count=0"
+
+/-- The model of the current code. -/
+def biasGelu (approxTanh : Bool) (a b : Option Shape) : String := biasGeluV true approxTanh a b
 
 /-! ## Softmax upcast removal (`softmax.py`) -/
 
@@ -327,18 +330,19 @@ structure FmmIn where
   cstConst : Bool
   cstShape : List Nat
   cst : Float
-  /-- which repairs /repo currently contains (probed by the harness on every run):
-      F3 flag swap in `MatMulTranspose.rewrite`, F4 rank ≥ 3 in the batch rules, F5 `get_ints("perm")`,
-      F9 divisor of rank ≤ 1 with exactly one element -/
-  fix3 : Bool := false
-  fix4 : Bool := false
-  fix5 : Bool := false
-  fix9 : Bool := false
+  /-- `true` (the default, what the driver uses) = the rule of /repo after commits a12b4ef (F3: flag swap in
+      `MatMulTranspose.rewrite`), fe00de2 (F4: rank ≥ 3 in the batch rules), 549a083 (F5: `get_ints("perm")`),
+      6dfb298 (F9: divisor of rank ≤ 1 with exactly one element).  `false` = the rule before that commit, kept
+      only for the `…_prefix_refuted` theorems. -/
+  fix3 : Bool := true
+  fix4 : Bool := true
+  fix5 : Bool := true
+  fix9 : Bool := true
 
 def flip (v : Option Int) : Option Int := some (1 - v.getD 0)
 
 /-- `(transA, transB)` emitted by `MatMulTranspose.rewrite` for an inner `(a, b)` (operands are swapped):
-as first found `(1-a, 1-b)` (finding C19-F3), repaired `(1-b, 1-a)`. -/
+before commit a12b4ef `(1-a, 1-b)` (finding C19-F3); now `(1-b, 1-a)`. -/
 def mtFlags (fixed : Bool) (a b : Int) : Int × Int :=
   if fixed then (1 - b, 1 - a) else (1 - a, 1 - b)
 
